@@ -516,7 +516,7 @@ class Gen:
             return Ent("p", name, r.choice([12, 12, 12, 5]), self.cls(), unique, ttl, created, 0, (self.rdname(),))
         if kind == "t":
             n = txt_len if txt_len is not None else r.choice([0, 1, 5, 20, 100, 255, 256, 600, r.randint(0, 1500)])
-            return Ent("t", name, 16, self.cls(), unique, ttl, created, 0, (bytes(r.randrange(256) for _ in range(n)),))
+            return Ent("t", name, 16, self.cls(), unique, ttl, created, 0, (r.randbytes(n),))
         if kind == "s":
             port = r.choice([0, 80, 127, 128, 65535, r.randint(0, 65535), self.u16()])
             return Ent("s", name, 33, self.cls(), unique, ttl, created, 0, (self.u16(), self.u16(), port, r.choice(self.hosts + [name, self.rdname()])))
